@@ -360,6 +360,10 @@ def coq_case(case, struct):
         dis = clist(['(%s, %s)' % (cN(i), cbool(nd[i]['dis'][1][t % len(nd[i]['dis'][1])])) for i in struct['order'] if nd[i]['dis']])
         dem = clist(['(%s, %s)' % (cN(i), cq(nd[i]['demand'][t % len(nd[i]['demand'])])) for i in struct['order'] if nd[i]['demand'] is not None])
         inputs.append('(tbl false %s, tbl 0 %s)' % (dis, dem))
+    if has_cost_fn(case):      # cost FUNCTIONS: same run, cost read-out of Sim/CostFn.v with the node's functions (quadratics of py cost_fn)
+        hf = clist(['(%s, Some (quad_h %s %s))' % (cN(i), cq(nd[i]['hf'][0]), cq(nd[i]['hf'][1])) for i in struct['order'] if nd[i].get('hf')])
+        sf = clist(['(%s, Some (quad_p %s %s))' % (cN(i), cq(nd[i]['pf'][0]), cq(nd[i]['pf'][1])) for i in struct['order'] if nd[i].get('pf')])
+        return 'obs_run_fn %s (tbl None %s) (tbl None %s) %s' % (net, hf, sf, clist(inputs))
     return 'obs_run %s %s' % (net, clist(inputs))
 
 
@@ -387,7 +391,7 @@ def parse_model(val, case, struct):
 
 def run_model(cases_structs, name='sim', shard=20, jobs=14):
     exprs = [coq_case(c, s) for c, s in cases_structs]
-    vals = coq_eval_sharded(name, 'Sim.Model Sim.Obs', '', exprs, shard=shard, jobs=jobs, timeout=1500)
+    vals = coq_eval_sharded(name, 'Sim.Model Sim.Obs Sim.CostFn', '', exprs, shard=shard, jobs=jobs, timeout=1500)
     return [parse_model(v, c, s) for v, (c, s) in zip(vals, cases_structs)]
 
 
